@@ -119,6 +119,14 @@ class World:
         k3 = [[X.g(m3[i % 3][j % 3]) if i // 3 == j // 3 else X.ZERO for j in range(6)] for i in range(6)]
         add("MatrixProduct (U2,U3) spaces=1", ift.MatrixProductOperator(self.doms[4], np.array(m3, dtype=float), spaces=(1,)),
             3, 4, 4, k3, False)
+        # further capability masks (every adapter / chain / InversionEnabler table row gets exercised)
+        add("Dense U2 cap13", None, 13, 0, 0, _imat([[1, 2], [1, 3]]), True)
+        add("Dense U3 cap14", None, 14, 1, 1, _imat([[1, 0, 1], [0, 1, 1j], [0, 0, 1]]), True)
+        add("Dense U2 cap7", None, 7, 0, 0, _imat([[0, 1], [-1, 1j]]), True)
+        add("Dense U3 cap11", None, 11, 1, 1, _imat([[1, 2, 0], [0, 1, 0], [3, 0, 1]]), True)
+        add("Dense U2 cap9", None, 9, 0, 0, _imat([[3, 1], [2, 1]]), True)
+        add("Dense U3 cap6", None, 6, 1, 1, _imat([[1, 0, 0], [2, 1, 0], [0, -1, 1]]), True)
+        add("Dense U2 cap12", None, 12, 0, 0, _imat([[1, 1], [1, 2]]), True)
         self.leaf_by_obj = {id(l.op): l.id for l in self.leaves}
 
     # ------------------------------------------------------------------------------------------
